@@ -41,6 +41,11 @@ CLAIMS = {
    note="Trusted: rustc/cargo, the arena crate's dependency set (tools/arena/Cargo.toml), Coq kernel, hand model of serde_usage.rs (tied to the code only by the closure oracle on emitted derives and by rustc). `client` single-file mode is excluded (not self-contained by design: README generates types and client individually); ill-formed combinations: --only with --exclude and --all-schemas (clap group).",
    technique="Coq proof (worklist invariant + termination measure) for the serde-bound clause; arena `cargo check` of emitted modules as search/oracle for the rest",
    design="§4 C01", engine="coq+arena"),
+ "C15": dict(
+   text="Coq theorems (closed under the global context) about a model of the value-enum builder (both collision strategies) and of the emitted codecs (serde derive rename/alias semantics; the hand-written case-insensitive Deserialize): for EVERY list of enum values — merge: every declared value is accepted and every undeclared string rejected (C15_merge_accepts/_rejects); preserve: every declared value decodes and re-encodes to exactly itself, undeclared strings are rejected (C15_preserve_roundtrip/_rejects); relaxed: every ASCII letter-case spelling of a declared value is accepted and encodes as a declared value, anything else is rejected (C15_relaxed_accepts/_rejects — the full statement, true since the `fix:` commit adding alias arms). Refuted by witness and kept as known findings: preserve-mode variant-name collision (rustc E0428) and non-string values turned into text. Tie: correspondence — emitted enums for ~800 value lists x 3 modes read back with syn vs the extracted model, and a compiled sample probed in the arena (serde_json) with every declared value, its case variants and near misses; anyOf known+open-string wrapper probed as well.",
+   note="Trusted: Coq kernel, extraction, serde derive semantics for unit variants (library contract, exercised by the arena), hand model of value_enums.rs/NormalizedVariant, C09's to_rust_type_name model for variant names. Not covered: nullable enums; non-ASCII values.",
+   technique="Coq proof (fold invariant: accepted strings = declared texts) with CLI/syn and compiled-code (arena) correspondence, bounded-exhaustive value lists",
+   design="§4 C15", engine="coq+cli+arena"),
 }
 
 checks = []
